@@ -4,7 +4,7 @@ non-system declarations by compiling the system headers into a PCH first
 (-ast-dump does not deserialize PCH declarations).  Results are cached under
 BUILD/cache keyed by the content of /repo's sources, so every check run sees
 the current working tree."""
-import hashlib, json, os, pickle, subprocess, sys, glob, re
+import hashlib, json, os, pickle, subprocess, sys, glob, re, threading
 
 REPO = os.environ.get('VERIF_REPO', '/repo')
 VERIF = os.path.dirname(os.path.dirname(os.path.abspath(__file__)))
@@ -69,7 +69,7 @@ def ensure_pch(defines):
                 if i.startswith('tbb/') and not par:
                     continue
                 f.write('#include <%s>\n' % i)
-        tmp = pch + '.%d.tmp' % os.getpid()
+        tmp = pch + '.%d.%d.tmp' % (os.getpid(), threading.get_ident())
         r = subprocess.run([CLANG] + STD + defines + ['-x', 'c++-header', hdr, '-o', tmp],
                            capture_output=True, text=True)
         if r.returncode != 0:
@@ -129,7 +129,7 @@ def load_ast(tu_text, defines):
         raise InfraError('clang failed on TU %r: %s' % (tu_text, r.stderr.decode(errors='replace')[-3000:]))
     root = json.loads(r.stdout)
     annotate_locs(root)
-    tmp = pk + '.%d.tmp' % os.getpid()
+    tmp = pk + '.%d.%d.tmp' % (os.getpid(), threading.get_ident())
     with open(tmp, 'wb') as f:
         pickle.dump(root, f, protocol=pickle.HIGHEST_PROTOCOL)
     os.replace(tmp, pk)
